@@ -31,9 +31,9 @@ def run(tier: str, keep: bool = False) -> int:
     # the public reset() in the middle of a transaction (queued PDUs, armed timers), then a new transaction on the same handler
     # PDUs carrying another transaction's sequence number while a transaction is running
     r.solo("dststale", "D", fam2, ["stale", "fd", "eof", "poll", "ack"], 4 if q else 6, ["C10"], pre=[["md", "fd"]], limit=3000 if q else 40000)
-    r.solo("dstreset", "D", fam2, ["reset", "md", "fd", "eof", "poll", "tick"], 5 if q else 7, ["C10"], pre=[["md"], ["fd", "eof"]],
+    r.solo("dstreset", "D", fam2, ["reset", "md", "fd", "eof", "poll", "lazy", "cancel", "tick"], 5 if q else 7, ["C10"], pre=[["md"], ["fd", "eof"]],
            limit=3000 if q else 40000)
-    r.solo("srcreset", "S", fam2, ["reset", "put", "poll", "cancel", "nak", "tick"], 5 if q else 7, ["C10"], pre=[["put"], ["poll"]],
+    r.solo("srcreset", "S", fam2, ["reset", "put", "poll", "lazy", "cancel", "nak", "tick"], 5 if q else 7, ["C10"], pre=[["put"], ["poll"]],
            limit=3000 if q else 40000)
     n = 400 if q else 8000
     r.driver("src_random", n, ["C10"])
